@@ -403,11 +403,44 @@ class Reference:
         return list(self.by_u.get(0, []))
 
 
-def comp_name(mat, rho):
-    from t4_geom_convert.Kernel.Utils import normalize_float
+import re as _re
+
+_NUMERAL = _re.compile(r'^([-+]?)(\d*)(?:\.(\d*))?(?:(?:[eEdD]([-+]?\d+))|([-+]\d+))?$')
+
+
+def fortran_value(s):
+    """value of an MCNP numeral ('2.70', '6.40875-2', '-5d4', '1.') as a Fraction (independent of the converter)."""
+    m = _NUMERAL.match(s.strip())
+    if not m or (not m.group(2) and not m.group(3)):
+        raise ValueError('not an MCNP numeral: %r' % s)
+    sign, ip, fp, e1, e2 = m.groups()
+    fp = fp or ''
+    mant = Fraction(int((ip or '0') + fp), 10 ** len(fp))
+    ex = int(e1 if e1 is not None else (e2 if e2 is not None else 0))
+    v = mant * Fraction(10) ** ex
+    return -v if sign == '-' else v
+
+
+def comp_key(mat, rho):
+    """(material number, density value) of a cell; ('void',) for material 0."""
     if not mat:
-        return 'm0'
-    return 'm%s_%s' % (mat, normalize_float(rho))
+        return ('void',)
+    return (int(mat), fortran_value(rho))
+
+
+def comp_key_of_name(name):
+    """the same key read back from a written composition name m<k>_<density> / m0."""
+    if name is None:
+        return None
+    if name == 'm0':
+        return ('void',)
+    m = _re.match(r'^m(\d+)_(.+)$', name)
+    if not m:
+        return ('unparsed', name)
+    try:
+        return (int(m.group(1)), fortran_value(m.group(2)))
+    except ValueError:
+        return ('unparsed', name)
 
 
 def volume_label(v):
